@@ -77,6 +77,26 @@ func buildIntrinsics() map[string]Intrinsic {
 		st.extra["threads"] = &TupleV{E: append(append([]Value{}, old...), ci.Args[0])}
 		return val(nil)
 	}
+	m[hp+"verifRunSchedules"] = func(e *Exec, st *State, ci *CallInfo) Outcome {
+		pre, ok := ci.Args[0].(*sym.Term).ConstVal()
+		if !ok {
+			unsupportedf("verifRunSchedules: symbolic preemption bound")
+		}
+		stuckMsg := mustConc(ci.Args[1], "stuck message")
+		var bodies []*Closure
+		if t, ok := st.extra["threads"].(*TupleV); ok {
+			for _, v := range t.E {
+				bodies = append(bodies, v.(*Closure))
+			}
+		}
+		delete(st.extra, "threads")
+		if st.rec != nil || st.sched != nil {
+			unsupportedf("verifRunSchedules inside a thread")
+		}
+		st.top().idx++ // the main frames resume behind the call when every thread has ended
+		e.startSchedules(st, bodies, int(pre), stuckMsg)
+		return handled
+	}
 	m[hp+"verifRunThreads"] = func(e *Exec, st *State, ci *CallInfo) Outcome {
 		raceMsg := mustConc(ci.Args[0], "race message")
 		stuckMsg := mustConc(ci.Args[1], "stuck message")
